@@ -160,7 +160,7 @@ def monotone_break(currents, times):
     for (i1, t1), (i2, t2) in zip(zip(currents[:-1], times[:-1]), zip(currents[1:], times[1:])):
         if math.isnan(t1) or math.isnan(t2):
             return {"i_ka": [i1, i2], "t_s": [t1, t2], "nan": True}
-        if t2 > t1 and not (math.isfinite(t1) and t2 <= t1 * (1 + RTOL) + 1e-300):
+        if t2 > t1 and not (math.isfinite(t1) and t2 <= t1 + RTOL * abs(t1) + 1e-300):
             return {"i_ka": [i1, i2], "t_s": [t1, t2]}
     return None
 
